@@ -167,7 +167,9 @@ func startC16Server() (*c16Srv, error) {
 		s.cmd.Process.Kill()
 		return nil, fmt.Errorf("server start timeout")
 	}
-	s.conn, err = grpc.NewClient(fmt.Sprintf("127.0.0.1:%d", s.port), grpc.WithTransportCredentials(insecure.NewCredentials()))
+	// (the client accepts large answers: only the SERVER's limits are under test)
+	s.conn, err = grpc.NewClient(fmt.Sprintf("127.0.0.1:%d", s.port), grpc.WithTransportCredentials(insecure.NewCredentials()),
+		grpc.WithDefaultCallOptions(grpc.MaxCallRecvMsgSize(64<<20), grpc.MaxCallSendMsgSize(64<<20)))
 	if err != nil {
 		return nil, err
 	}
@@ -1035,6 +1037,68 @@ func runC16(t *testing.T, tier string) int {
 				}
 			}
 		}
+	}
+	// ---- answers at the size limit: a Pull that takes a backlog of exactly the
+	// 10 MiB the handler allows per pull must either answer with all of it, or fail
+	// WITHOUT having leased anything
+	if only == "" || only == "Pull" {
+		if err := restart(); err != nil {
+			fmt.Fprintln(os.Stderr, "C16 harness:", err)
+			return 2
+		}
+		bigTopic, bigSub := "projects/p/topics/big", "projects/p/subscriptions/big"
+		bctx, bcancel := context.WithTimeout(context.Background(), 120*time.Second)
+		_, e1 := srv.pub.CreateTopic(bctx, &pubsubpb.Topic{Name: bigTopic})
+		_, e2 := srv.sub.CreateSubscription(bctx, &pubsubpb.Subscription{Name: bigSub, Topic: bigTopic})
+		if e1 != nil || e2 != nil {
+			bcancel()
+			fmt.Fprintln(os.Stderr, "C16 harness: big backlog setup:", e1, e2)
+			return 2
+		}
+		for _, size := range []int{1<<20 - 50, 1 << 20} {
+			// ten messages of `size` bytes (JSON strings), one request each
+			for i := 0; i < 10; i++ {
+				payload := []byte(`"` + strings.Repeat("x", size-2) + `"`)
+				if _, err := srv.pub.Publish(bctx, &pubsubpb.PublishRequest{Topic: bigTopic, Messages: []*pubsubpb.PubsubMessage{{Data: payload}}}); err != nil {
+					sink.add(report.Viol{Property: "C16", Check: "C16/Pull", Rule: "valid-request-rejected", Text: fmt.Sprintf("Publish of a %d byte JSON payload failed: %v", size, err), Trace: []string{"big-backlog"}})
+				}
+			}
+			before, _ := world.DumpDB(srv.db, 0)
+			resp, err := srv.sub.Pull(bctx, &pubsubpb.PullRequest{Subscription: bigSub, MaxMessages: 100, ReturnImmediately: true})
+			total++
+			perRPC["Pull"]++
+			codesSeen["Pull(big):"+status.Code(err).String()]++
+			if !srv.alive() {
+				sink.add(report.Viol{Property: "C16", Check: "C16/Pull", Rule: "server-crash", Text: fmt.Sprintf("Pull of a backlog of 10 x %d bytes terminated the server", size), Trace: []string{"big-backlog"}})
+				break
+			}
+			after, _ := world.DumpDB(srv.db, 0)
+			if err != nil {
+				if d := before.DiffIgnoring(after, "subscriptions.expires_at"); d != "" {
+					if len(d) > 600 {
+						d = d[:600] + " ..."
+					}
+					sink.add(report.Viol{Property: "C16", Check: "C16/Pull", Rule: "error-changed-state", Text: fmt.Sprintf("Pull of a backlog of 10 x %d bytes was answered with %v but the deliveries changed (the client never got the ack ids):\n%s", size, status.Code(err), d), Trace: []string{"big-backlog", fmt.Sprint(size)}})
+				}
+			} else {
+				var ids []string
+				for _, rm := range resp.ReceivedMessages {
+					ids = append(ids, rm.AckId)
+				}
+				if len(ids) > 0 {
+					srv.sub.Acknowledge(bctx, &pubsubpb.AcknowledgeRequest{Subscription: bigSub, AckIds: ids})
+				}
+			}
+			// drain what is left for the next size
+			for k := 0; k < 20; k++ {
+				r, err := srv.sub.Pull(bctx, &pubsubpb.PullRequest{Subscription: bigSub, MaxMessages: 1, ReturnImmediately: true})
+				if err != nil || len(r.ReceivedMessages) == 0 {
+					break
+				}
+				srv.sub.Acknowledge(bctx, &pubsubpb.AcknowledgeRequest{Subscription: bigSub, AckIds: []string{r.ReceivedMessages[0].AckId}})
+			}
+		}
+		bcancel()
 	}
 	if len(samples) == 0 {
 		samples = append(samples, "none")
